@@ -15,6 +15,12 @@ import (
 // messages: Range, Has, Get, Set, Clear, Descriptor().Fields().By…, Interface.
 var pbMsgType = types.NewNamed(types.NewTypeName(token.NoPos, nil, "engine.pbMsg", nil), types.NewStruct(nil, nil), nil)
 var pbFDType = types.NewNamed(types.NewTypeName(token.NoPos, nil, "engine.pbFD", nil), types.NewStruct(nil, nil), nil)
+var pbOpaqueType = types.NewNamed(types.NewTypeName(token.NoPos, nil, "engine.pbOpaque", nil), types.NewStruct(nil, nil), nil)
+
+// pbOpaque: a protoreflect.List / Map of a struct-view message; only its
+// existence is modelled, any method call is reported as unmodelled.
+type pbOpaque struct{ what string }
+
 var pbMDType = types.NewNamed(types.NewTypeName(token.NoPos, nil, "engine.pbMD", nil), types.NewStruct(nil, nil), nil)
 var pbFDsType = types.NewNamed(types.NewTypeName(token.NoPos, nil, "engine.pbFDs", nil), types.NewStruct(nil, nil), nil)
 
@@ -287,7 +293,11 @@ func (c *Ctx) engineInvoke(recv Iface, method string, args []Value) (Value, bool
 					if sl, ok := raw.(Slice); ok && sl.len == 0 {
 						continue
 					}
-					c.errf("pb-lite Range: non-empty repeated field %s not modelled", fd.name)
+					keep := c.invoke(cb, []Value{c.pbFDIface(fd), c.mkPV("list", Iface{t: pbOpaqueType, v: pbOpaque{what: "list value of repeated field " + fd.name}})}).(*Term)
+					if !c.branch(keep) {
+						return nil, true
+					}
+					continue
 				}
 				if fd.idx >= 0 {
 					if !c.branch(c.pbIsSet(fd, raw)) {
@@ -442,6 +452,8 @@ func (c *Ctx) engineInvoke(recv Iface, method string, args []Value) (Value, bool
 			}
 			return Iface{}, true
 		}
+	case pbOpaque:
+		c.errf("pb-lite: %s: method %s not modelled", r.what, method)
 	case pbFD:
 		switch method {
 		case "Name", "FullName", "JSONName", "TextName":
